@@ -165,6 +165,21 @@ def gen(rng, nm, na):
             c["n_inc"] = kr + int((F(c["spec"]["ctrl"]["T"]) + 6) / dtq) + 10
             cases.append(c)
             continue
+        if j % 10 == 6:
+            # targeted: nested multi-line sections (not every line carries a switch), ideal communication; overlapping faults in a
+            # section and in the section it feeds, the upstream one repaired first
+            c["spec"]["ctrl"].pop("nodev", None); c["spec"]["ctrl"].pop("ict", None)
+            npair = rng.choice([2, 3])
+            nl = 2 + 2 * npair
+            c["spec"]["feeders"] = [{"parent": [-1] + list(range(nl - 1)), "sw": [0, 0] + [1, 0] * npair, "cust": [1] * nl, "load": ["1/50"] * nl, "cost": [1] * nl}]
+            c["spec"]["tie"] = None; c["spec"]["mg"] = None
+            dtq = F(c["dt"]); k0 = rng.randint(1, 3)
+            up = 2 + 2 * rng.randrange(npair - 1)            # first line of a section that feeds another one
+            down = up + 2 + rng.choice([0, 1])
+            c["faults"] = {str(k0): [[f"F0L{down}", str(rng.choice([F(6), F(8)]))]], str(k0 + rng.randint(1, 3)): [[f"F0L{up + rng.choice([0, 1])}", str(rng.choice([F(1), F(2)]))]]}
+            c["n_inc"] = k0 + int((8 + 2 * F(c["spec"]["ctrl"]["T"]) + 6) / dtq) + 10
+            cases.append(c)
+            continue
         if j % 10 == 1:
             # targeted: ideal communication (no ICT network, sensors without node); the sensor of a line fails for good (retry and
             # reboot fail: manual repair) right before that line fails; the line is repaired first, the sensor comes back later:
